@@ -141,9 +141,12 @@ CARRIERS = {
     "edge_seps_tail": (_t("# T\n\nnel\x85here and ff\x0chere\n\n\n\nlast line   "), "edge"),
     "edge_u2028": (_t("# T\n\nline\u2028separator and\u2029paragraph separator\ttab\n\ntrailing  \nend"), "edge"),
     "edge_fs_gs_rs": (_t("# T\n\nfs\x1cgs\x1drs\x1eus\x1f vt\x0b\n\n\n\nmore   \n"), "edge"),
-    "edge_big_utf8_3": (_t("# Big\n\n" + "".join(("\u65e5\u672c\u8a9e\u30c6\u30ad\u30b9\u30c8" * 8) + ("  " if i % 7 == 3 else "") + "\n" for i in range(160))), "edge"),
-    "edge_big_utf8_2": (_t("# Big\n\n" + "".join(("\u00e9\u00e8\u00fc\u00f1" * 15) + ("\t" if i % 11 == 5 else "") + "\n" for i in range(200)) + "last   "), "edge"),
-    "edge_big_utf8_4": (_t("# Big\n\n" + "".join(("\U0001f600\U0001f680" * 10) + " x" * (i % 3) + "\n" for i in range(150))), "edge"),
+    # > 8 KiB of multi-byte text; every line carries a failure whose column depends on
+    # the number of characters before it, so one character lost or doubled anywhere
+    # (e.g. at an 8192-byte read boundary) changes the report
+    "edge_big_utf8_3": (_t("# Big\n\n" + "".join(("\u65e5\u672c\u8a9e\u30c6\u30ad\u30b9\u30c8" * 8) + "   \n" for i in range(160))), "edge"),
+    "edge_big_utf8_2": (_t("# Big\n\n" + "".join(("\u00e9\u00e8\u00fc\u00f1" * 15) + "\tx\n" for i in range(200)) + "last   "), "edge"),
+    "edge_big_utf8_4": (_t("# Big\n\n" + "".join(("\U0001f600\U0001f680" * 10) + " x" * (i % 3) + "   \n" for i in range(150))), "edge"),
     "edge_long_line": (_t("# T\n\n" + ("word " * 2000) + "\n"), "edge"),
     "edge_2000_lines": (_t("# Big\n\n" + "".join("line %d with trailing  \n" % i if i % 50 == 0 else "line %d\n" % i for i in range(2000))), "edge"),
     "edge_2000_fixable": (_t("# Big\n\n" + "".join("tab\there %d\n" % i for i in range(600))), "edge"),
